@@ -1183,9 +1183,16 @@ def trace_access(f, o, depth=16):
     # continue tracing from the root local when it is itself a unique copy of a projected place
     root = p["local"]
     ds = defs_of(f).get(root, [])
-    if len(ds) == 1 and ds[0][0] == "stmt" and ds[0][3]["rv"]["k"] in ("use", "ref") and depth > 1:
+    if len(ds) == 1 and ds[0][0] == "stmt" and ds[0][3]["rv"]["k"] in ("use", "ref", "cast") and depth > 1:
         rv = ds[0][3]["rv"]
-        inner = rv["op"] if rv["k"] == "use" else {"k": "copy", "place": rv["place"]}
+        if rv["k"] == "cast":
+            pl = op_place(rv["op"])
+            if pl is not None and pl["proj"] and "std::boxed::Box<" in f.local_ty(pl["local"]):
+                inner = {"k": "copy", "place": {"local": pl["local"], "proj": []}}
+            else:
+                inner = rv["op"]
+        else:
+            inner = rv["op"] if rv["k"] == "use" else {"k": "copy", "place": rv["place"]}
         if op_place(inner) is not None:
             r2, p2 = trace_access(f, inner, depth - 1)
             if r2 is not None:
